@@ -8,7 +8,7 @@
 (* configuration adds the irrelevant dimensions: the permutation of the    *)
 (* input list (PAR2), the goroutine count, the current directory, the      *)
 (* spelling of the paths, library versus command line, repetition, the     *)
-(* kernel dispatch path.  TLC enumerates the configurations; the trace     *)
+(* kernel dispatch path, what an earlier run left in the directory.  TLC enumerates the configurations; the trace     *)
 (* specification Trace_C17 states the 2-safety property over the recorded  *)
 (* executions: equal KEY => equal bytes.                                   *)
 (***************************************************************************)
@@ -22,20 +22,22 @@ Cwds == {"setdir", "parent", "unrelated"}
 Spells == {"rel", "abs", "dotslash", "dblsep", "dotdot", "absdot", "absdblsep", "absdotdot"}
 Vias == {"lib", "cli"}
 Kernels == {"ssse3", "scalar"}
+Priors == {"fresh", "stale"}    \* stale: the directory already holds longer files under the names Create will write
 
 VARIABLE cfg
 Init == cfg = [kind |-> "root"]
 Next == /\ cfg.kind = "root"
-        /\ \E f \in Formats, s \in Sets, p \in Perms, g \in Gs, w \in Cwds, sp \in Spells, v \in Vias, k \in Kernels, r \in 1 .. Reps :
+        /\ \E f \in Formats, s \in Sets, p \in Perms, g \in Gs, w \in Cwds, sp \in Spells, v \in Vias, k \in Kernels, r \in 1 .. Reps, pr \in Priors :
               /\ ~(w = "unrelated" /\ sp \notin {"abs", "absdot", "absdblsep", "absdotdot"})
               /\ ~(v = "cli" /\ k = "scalar")                  \* the binary uses the CPU's dispatch
               /\ ~(r > 1 /\ (p # "given" \/ sp # "rel"))        \* repetition: the plain configuration only
-              /\ cfg' = [kind |-> "cfg", format |-> f, set |-> s, perm |-> p, g |-> g, cwd |-> w, spell |-> sp, via |-> v, kernel |-> k, rep |-> r]
+              /\ ~(pr = "stale" /\ (p # "given" \/ sp # "rel" \/ w # "setdir" \/ r > 1 \/ k = "scalar"))   \* stale output: the plain configuration only
+              /\ cfg' = [kind |-> "cfg", prior |-> pr, format |-> f, set |-> s, perm |-> p, g |-> g, cwd |-> w, spell |-> sp, via |-> v, kernel |-> k, rep |-> r]
 
 \* the relevant part of a configuration
 Key(c) == << c.format, c.set, IF c.format = "par" THEN c.perm ELSE "any" >>
 C17_KeyIgnoresIrrelevant ==
-  cfg.kind = "cfg" => Key(cfg) = Key([cfg EXCEPT !.g = 1, !.cwd = "setdir", !.spell = "rel", !.via = "lib", !.kernel = "ssse3", !.rep = 1])
+  cfg.kind = "cfg" => Key(cfg) = Key([cfg EXCEPT !.g = 1, !.cwd = "setdir", !.spell = "rel", !.via = "lib", !.kernel = "ssse3", !.rep = 1, !.prior = "fresh"])
 
 Emit == IF cfg'.kind = "cfg" THEN PrintT("CONFIG " \o ToJson(cfg')) ELSE TRUE
 =============================================================================
